@@ -1,7 +1,8 @@
 (* C16 — statements only. Each theorem is closed by [exact] of a lemma proved in Proofs.v / Conc.v
    and followed by Print Assumptions. *)
 From GVL Require Import NList.
-From GV_ring Require Import Model Proofs.
+From GV_ring Require Import Model Proofs ConcModel ConcProofs.
+From Coq Require Import Permutation.
 Open Scope N_scope.
 
 (* For every positive size accepted by New and every operation list in which nothing is pushed
@@ -33,6 +34,68 @@ Theorem C16_spec_bounded : forall ops b,
   nlen (bitems (brun_st b ops)) <= bcap b /\ bcap (brun_st b ops) = bcap b.
 Proof. exact bq_bounded. Qed.
 Print Assumptions C16_spec_bounded.
+
+(* ---- any number of concurrent producers, one consumer, one closer, EVERY interleaving ----
+   [exec cb_err (init_cfg r work) sched] is the configuration reached from the initial one by an
+   arbitrary schedule (list of thread choices; disabled choices are skipped); work = the items each
+   producer pushes; cb_err = which callbacks fail. *)
+Theorem C16_all_interleavings : forall cb_err size r work sched,
+  0 < size -> rnew size = Some r ->
+  let c := exec cb_err (init_cfg r work) sched in
+  (* no lost wake-up: a parked consumer sees an empty open queue, or a broadcast is still to come *)
+  (cons c = CParked -> (slot_empty (cring c) /\ rclosed (cring c) = false) \/ pending c = true) /\
+  (* exactly once: every accepted item is executed, in the consumer's hand, queued, or dropped by Close *)
+  Permutation (accepted c) (executed c ++ inhand (cons c) ++ ring_items (cring c) ++ discarded c) /\
+  (* FIFO until Close: executed callbacks are a prefix of the accepted pushes, in acceptance order,
+     and what is queued is the rest (q is the abstract bounded queue the ring represents) *)
+  (close_done (closer c) = false ->
+     exists q, Live (cring c) q /\ accepted c = executed c ++ inhand (cons c) ++ q) /\
+  (* Close returns only after the consumer has stopped *)
+  (closer c = KDone -> cons c = CStopped) /\
+  (* a processing error is reported at most once and stops the consumer *)
+  (onerror c <= 1 /\ (onerror c = 1 -> cons c = CStopped)).
+Proof.
+  intros cb_err size r work sched Hs Hn.
+  destruct (all_schedules cb_err size r work sched Hs Hn) as (HI & _ & HF).
+  exact (conj (inv_wake _ HI) (conj (inv_cons _ HI) (conj HF (conj (inv_done _ HI) (inv_err _ HI))))).
+Qed.
+Print Assumptions C16_all_interleavings.
+
+(* deadlock freedom: from every reachable configuration some thread can step, unless every producer
+   has finished, the consumer has stopped and Close has returned.  In particular a Close that is
+   waiting for the consumer is never stuck behind a lost wake-up. *)
+Theorem C16_no_deadlock : forall cb_err size r work sched,
+  0 < size -> rnew size = Some r ->
+  let c := exec cb_err (init_cfg r work) sched in
+  (exists t c', step cb_err c t = Some c') \/ finished c.
+Proof.
+  intros cb_err size r work sched Hs Hn.
+  destruct (all_schedules cb_err size r work sched Hs Hn) as (HI & HM & _).
+  exact (progress cb_err _ HI HM).
+Qed.
+Print Assumptions C16_no_deadlock.
+
+(* nothing runs after Close has returned: no later step changes the executed list *)
+Theorem C16_nothing_after_close : forall cb_err size r work sched t c',
+  0 < size -> rnew size = Some r ->
+  let c := exec cb_err (init_cfg r work) sched in
+  closer c = KDone -> step cb_err c t = Some c' -> executed c' = executed c /\ closer c' = KDone.
+Proof.
+  intros cb_err size r work sched t c' Hs Hn c Hk Hst.
+  destruct (all_schedules cb_err size r work sched Hs Hn) as (HI & _ & _).
+  exact (closed_frozen cb_err _ t c' HI Hk Hst).
+Qed.
+Print Assumptions C16_nothing_after_close.
+
+(* non-vacuity of the concurrent model: 2 producers on a ring of 1, a schedule that pushes, is refused,
+   executes, closes and joins *)
+Example C16_conc_example :
+  exists r, rnew 1 = Some r /\
+  let c := exec (fun _ => false) (init_cfg r [[7]; [8]])
+    [TProd 0; TProd 0; TProd 0; TProd 1; TProd 1; TProd 1; TProd 0;
+     TCons; TCons; TCons; TCons; TClose; TClose; TClose; TClose; TCons; TCons; TCons; TClose] in
+  accepted c = [7] /\ executed c = [7] /\ closer c = KDone /\ cons c = CStopped.
+Proof. eexists. split; [reflexivity|]. vm_compute. repeat split. Qed.
 
 (* non-vacuity: capacity 2, push push push(refused) pull push pull pull pull(would block) *)
 Example C16_example :
